@@ -19,6 +19,8 @@ import (
 
 func init() { core.Register("C12", Main) }
 
+type bigInt = big.Int
+
 // ---- specification transcription (no go-kardia logic, plain big.Int) ----
 
 type sv struct {
@@ -373,6 +375,13 @@ func history(c *core.Case) {
 					next++
 				}
 			}
+			if r.Intn(15) == 0 { // many huge newcomers in one change set (sums far above the cap; int64 sums wrap)
+				ch = nil
+				for i, m := 0, 5+r.Intn(16); i < m; i++ {
+					ch = append(ch, types.NewValidator(addr(c.I, next+1), types.MaxTotalVotingPower-r.Int63n(1+types.MaxTotalVotingPower/16)))
+					next++
+				}
+			}
 			if r.Intn(12) == 0 { // remove everybody
 				ch = nil
 				for _, v := range real.Validators {
@@ -629,6 +638,7 @@ func Main() {
 	r.Assume("the specification is the Tendermint weighted round-robin as described in the property text (window 2*total, floor-average centring, newcomers at -1.125*total)")
 	r.Cases("corpus", 8, core.Opts{}, corpus)
 	r.Cases("history", r.N(600, 60000), core.Opts{Workers: 16}, history)
+	r.Cases("cstate", r.N(32, 1500), core.Opts{Procs: 16, StallSec: 300}, cstateCase)
 	r.Cases("fairness", r.N(40, 2000), core.Opts{Workers: 16}, fairness)
 	r.Floor("valid_change_sets", 100)
 	r.Floor("rescales", 5)
